@@ -573,8 +573,9 @@ func (tree *Rtree) nearestNeighbors(k int, p geom.Point, n *node,
 			dists, nearest = insertNearest(k, dists, nearest, dist, e.obj)
 		}
 	} else {
-		branches, branchDists := sortEntries(p, n.entries)
-		branches = pruneEntries(p, branches, branchDists)
+		// MINMAXDIST pruning only guarantees one object per kept branch,
+		// so it cannot be used when more than one neighbor is requested.
+		branches, _ := sortEntries(p, n.entries)
 		for _, e := range branches {
 			nearest, dists = tree.nearestNeighbors(k, p, e.child, dists, nearest)
 		}
